@@ -13,7 +13,7 @@ def first_sentence(t, n=230):
 
 
 def main():
-    rows, brow = [], []
+    rows, brow, neutral = [], [], []
     for d in sorted(glob.glob(os.path.join(VERIF, "seeded", "*"))):
         mp = os.path.join(d, "meta.json")
         if not os.path.isfile(mp):
@@ -27,17 +27,20 @@ def main():
             continue
         q = m.get("detected", {}).get("quick", {}).get(m["property"], {})
         verdict = {1: "reported", 0: "MISSED", 2: "machinery failure"}.get(q.get("exit"), "not run")
+        if m.get("neutralised_by"):
+            neutral.append("| `%s` | %s | %s |" % (name, m["property"], first_sentence(m["neutralised_by"], 400)))
+            continue
         clause = first_sentence(q.get("first", ""), 160).replace("|", "/")
         rows.append("| `%s` | %s | %s | %s | %s |" % (name, m["property"], first_sentence(m.get("needs_to_manifest", ""), 260).replace("|", "/"), verdict, clause))
     ndet = sum(1 for r in rows if "| reported |" in r)
     txt = ["## 13. Seeded breaking changes and which checks catch them", "",
            "Independent sub-agents were given only the text of one property and a scratch worktree, and asked for changes that break the property while the pinned suite still passes "
-           "(three rounds of 40; the second round asked for interactions between features, state left by earlier calls, unusual legal values, error paths, cooperating edits; the third for "
+           "(four rounds: 40, 40, 40 and 20 changes; the second round asked for interactions between features, state left by earlier calls, unusual legal values, error paths, cooperating edits; the third and fourth for "
            "code sites, backends and triggers the earlier rounds were unlikely to have tried). "
            "Each change was confirmed in a scratch worktree by `tools/seed_import.py` (demo passes unchanged, pinned suite 156 passed with the change, demo fails with the change) and is kept under "
            "`seeded/<name>/` (patch.diff, demo.py, meta.json). `tools/seed_eval.py` applies each patch to a scratch worktree (never /repo), points the quick check of its property at that tree (`AW_REPO`) "
            "and records the outcome. **%d of %d seeded changes are reported by the quick check of their own property** on the current machinery." % (ndet, len(rows)), "",
-           "On first evaluation the checks of the time missed 9 of 40 (round 1), 14 of 40 (round 2) and 8 of 40 (round 3); every miss was analysed and the generators / judges strengthened until it was reported "
+           "On first evaluation the checks of the time missed 9 of 40 (round 1), 14 of 40 (round 2), 8 of 40 (round 3) and 10 of 20 (round 4, which went to the ten properties with the highest earlier miss rates); every miss was analysed and the generators / judges strengthened until it was reported "
            "(never by special-casing the seeded input). What was added in response: runs of calls without intermediate reads judged as one batch "
            "(lazy-commit / rollback / cache interactions), total projection (an unreadable bucket is an observation, not a harness crash), deletes of ids that live in another bucket, "
            "out-of-contract and absurd ids ending a no-read run, stale `Bucket` handles described in every projection, bucket re-creation in the ownership model, window edges placed at the ends of "
@@ -45,8 +48,13 @@ def main():
            "heartbeat stream, variable re-use and re-read programs, faults after `RETURN`, comparison of every `query_bucket` return with a direct read, in-place mutation between two serialisations, "
            "multi-thousand-event legacy buckets, one event spanning many, list-valued merge keys, inline / out-of-order TOML tables; after round 3: pulsetimes whose product with 1000 is inexact in floating point, "
            "heartbeat streams at 6 h per tick (merged events beyond 24 h), duplicate-create failures in durability histories, the same object repeated in a bulk list, instants before the epoch written as 1970 local times, "
-           "multi-day durations in sorting, two-token regexes (adjacent tokens inside one value), leaves whose text coincides across types.", "",
+           "multi-day durations in sorting, two-token regexes (adjacent tokens inside one value), leaves whose text coincides across types; after round 4: regexes that match the empty string and the same values "
+           "under other keys in one call (C19), zero-byte / blank / comment-only user files (C20), trickles whose gaps are each below the age limit (C18), re-assignment through the timestamp setter after a first "
+           "serialisation and zones in their repeated hour (`fold=1`) (C13), negative integers and mixed ids in grouping inputs, a transform / read / construction that raises is a judged record instead of a "
+           "machinery failure (C03, C07-C10, C13, C15, C16, C19), the same statement text twice with a rebinding in between and separators placed first on the line (C11).", "",
            "| seeded change | property | what it needs in order to manifest | quick check | first reported line |", "|---|---|---|---|---|"] + rows + ["",
+           "Seeded changes that stopped being breaking changes when a genuine defect was repaired (kept for the record, not counted above):", "",
+           "| seeded change | property | why it no longer breaks the property |", "|---|---|---|"] + neutral + ["",
            "### Property-preserving changes (must stay silent)", "",
            "`tools/benign_eval.py` applies each of these to a scratch worktree, runs the pinned suite (must pass) and the listed quick checks (must exit 0).", "",
            "| change | why it preserves the properties | checks run | result |", "|---|---|---|---|"] + brow + [""]
